@@ -8,8 +8,8 @@ from checks.c12 import _bad_adder
 FILES = ["litedram/phy/model.py"]
 LEVEL = "model_checking"
 TECHNIQUE = ("bounded model checking (z3 QF_BV) of the elaborated real SDRAMPHYModel (bank memories expanded, latency pipelines) driven "
-             "by a symbolic legal DFI trace, against an independent reference DRAM that tracks one symbolic watched byte; "
-             "replay on migen.sim")
+             "by a symbolic legal DFI trace, against an independent reference DRAM that tracks one symbolic watched byte (2048-column "
+             "geometry: bank memories abstracted to the watched word, models replayed on the real memories); replay on migen.sim")
 EXPLANATION = ("Every DFI phase input is a free solver variable per cycle, constrained only by the reference model's own legality "
                "predicate (ACT to a closed bank, CAS to an open bank, write recovery before precharge / read of the same bank, at "
                "most one command of a kind per controller cycle).  The reference keeps the open row per bank and the value of one "
